@@ -2,6 +2,7 @@ package main
 
 import (
 	"fmt"
+	"go/constant"
 	"go/types"
 	"strings"
 
@@ -265,4 +266,52 @@ func ruleOverwrite(c *Ctx, rule string, fns []*ssa.Function) {
 			c.OK(rule, name, p.Pos(fn.Pos()), fmt.Sprintf("%d error-returning call(s) inside loops, each examined before the next iteration", n))
 		}
 	}
+}
+
+// ruleProceedTable: TypedBucket.ProceedWithSet may answer true only while the bucket has no error
+// (every direct `.Err =` in the setters relies on it) and, with a checker, only for selected fields.
+func ruleProceedTable(c *Ctx, rule string) {
+	p := c.P
+	fn := p.SSAFunc(p.Method("boltz", "TypedBucket", "ProceedWithSet"))
+	name := FnName(fn)
+	c.Analysed(name)
+	h := newHolderInfo(c)
+	ok, why, rows := true, "", 0
+	for _, errNil := range []bool{true, false} {
+		for _, chkNil := range []bool{true, false} {
+			for _, updated := range []bool{true, false} {
+				rows++
+				res, derr := Decide(fn, func(v ssa.Value) (AV, bool) {
+					if f, _ := loadedField(v); sameVar(f, h.errField) {
+						if errNil {
+							return AV{Kind: "nil"}, true
+						}
+						return AV{Kind: "nonnil"}, true
+					}
+					if v == ssa.Value(fn.Params[2]) {
+						if chkNil {
+							return AV{Kind: "nil"}, true
+						}
+						return AV{Kind: "nonnil"}, true
+					}
+					if call, isCall := v.(*ssa.Call); isCall && call.Call.IsInvoke() && call.Call.Method.Name() == "IsUpdated" {
+						return avBool(updated), true
+					}
+					if call, isCall := v.(*ssa.Call); isCall {
+						if cal, _ := calleeOf(call.Common()); cal != nil && cal.Name() == "HasError" {
+							return avBool(!errNil), true
+						}
+					}
+					return AV{}, false
+				}, nil)
+				want := errNil && (chkNil || updated)
+				if derr != "" {
+					ok, why = false, "not decidable: "+derr
+				} else if res[0].Kind != "const" || constant.BoolVal(res[0].C) != want {
+					ok, why = false, fmt.Sprintf("bucketErrNil=%v checkerNil=%v fieldSelected=%v -> %v, expected %v", errNil, chkNil, updated, res[0], want)
+				}
+			}
+		}
+	}
+	c.Check(ok, rule, name, p.Pos(fn.Pos()), fmt.Sprintf("answers true exactly when the bucket has no error and (no checker or the checker selects the field): %d rows", rows), "ProceedWithSet "+why+" — a later setter would overwrite an earlier recorded error (e.g. a constraint veto) or write an unselected field")
 }
